@@ -35,13 +35,15 @@ HARNESSES = [
 ENCODED = ["heap_print::non_quoted_token", "non_quoted_graphic_token", "char_to_string",
            "requires_space", "needs_bracketing", "char-class macros (small_letter_char, "
            "alpha_numeric_char, graphic_token_char, solo_char, ...)", "OpDesc::build_with/get",
-           "OpDeclSpec::is_strict_left/right", "char_to_string's format! arm (MIR)"]
+           "OpDeclSpec::is_strict_left/right", "char_to_string's format! arm (MIR)",
+           "every function of heap_print.rs that emits an operator token (format_clause -> enqueue_op, "
+           "print_rational): only on paths where ignore_ops was read false (MIR)"]
 ASSUME = ["ASCII texts (one harness adds a Latin-extended first char)",
           "K stubs std::fmt::format; the hex-escape branch of char_to_string is decided by the M part "
           "(the value handed to LowerHex is the whole code point)",
           "S1 arcu epoch stub where Atom::as_str is reached"]
 BOUNDS = "texts of 0..3 chars (quick), 4 (thorough); all priorities 0..1200 x 7 specifiers"
-OUTSIDE = ("HCPrinter's walk (heap iterators, op-table IndexMap), write_canonical, decisions that "
+OUTSIDE = ("HCPrinter's walk (heap iterators, op-table IndexMap), write_canonical beyond the ignore_ops guard of operator tokens, decisions that "
            "depend on the operator table, non-ASCII beyond U+024F")
 
 
